@@ -64,6 +64,14 @@ def gen_cases(tier, seed):
                                         continue
                                     cases.append(dict(kind="espirit", shape=sh, nc=nc, calib=cw, kernel=kw, thresh=th, crop=crop,
                                                       data=data, dtype=dt, max_iter=mi))
+    # the caller's k-space as a non-contiguous view (every other coil of a larger acquisition / transposed storage),
+    # with calib_width == image width so that no padding copy is made on the way in
+    for sh, cw in (([8, 8], 8), ([12, 12], 12)):
+        for nc in (2, 4):
+            for data in ("g0", "ones"):
+                for lay in ("coil-stride", "fortran"):
+                    cases.append(dict(kind="layout", shape=sh, nc=nc, calib=cw, kernel=3, thresh=0.02, crop=0.8, data=data, dtype="c128",
+                                      max_iter=30, layout=lay))
     # threshold ties: crop set EXACTLY to the eigenvalue of one voxel (taken from a first run with crop=0);
     # "zero where the eigenvalue does not exceed the crop threshold" => that voxel must be zero
     for sh in ([8, 8], [9, 10]):
@@ -112,6 +120,18 @@ def run_case(case, seed):
         vals = np.sort(np.asarray(e0).ravel())
         crop = float(vals[len(vals) // 2])
         when = "crop equal to a voxel's eigenvalue"
+    if case["kind"] == "layout":
+        np.random.seed((seed + 99) % 2 ** 32)
+        m_c, e_c = mr.app.EspiritCalib(np.ascontiguousarray(ksp), calib_width=case["calib"], thresh=case["thresh"], kernel_width=case["kernel"],
+                                       crop=crop, max_iter=case["max_iter"], output_eigenvalue=True, show_pbar=False).run()
+        if case["layout"] == "coil-stride":
+            big = np.zeros((2 * nc,) + tuple(sh), dtype=ksp.dtype)
+            big[::2] = ksp
+            ksp = big[::2]
+        else:
+            ksp = np.asfortranarray(ksp)
+        k0 = ksp.copy()
+        when = "non-contiguous k-space"
     np.random.seed((seed + 99) % 2 ** 32)
     mps, eig = mr.app.EspiritCalib(ksp, calib_width=case["calib"], thresh=case["thresh"], kernel_width=case["kernel"],
                                    crop=crop, max_iter=case["max_iter"], output_eigenvalue=True, show_pbar=False).run()
@@ -163,6 +183,10 @@ def run_case(case, seed):
                         V("recovery", "interior voxels were cropped although the data are fully sampled smooth maps (%d of %d kept)" % (int(k_in.sum()), k_in.size))
                     elif over.any():
                         V("recovery", "| |maps| - |true| | exceeds 0.02 + 2%% at %d interior entries (worst %.4g)" % (int(over.sum()), float(diff.max())))
+    if case["kind"] == "layout" and not viol:
+        if not (np.allclose(np.asarray(mps), np.asarray(m_c), atol=1e-9) and np.allclose(np.asarray(eig).ravel(), np.asarray(e_c).ravel(), atol=1e-9)):
+            V("layout-invariance", "maps for a %s k-space view differ from the maps for its contiguous copy (max diff %.3g)" % (
+                case["layout"], float(np.abs(np.asarray(mps) - np.asarray(m_c)).max())))
     if ksp.tobytes() != k0.tobytes():
         V("input-mutated", "k-space array was modified")
     nontrivial = kept is not None and bool(kept.any())
